@@ -404,6 +404,24 @@ fn c07_root(out: &mut Out, root: &Root, depth: u8, cap: u64, rng: &mut Rng) {
         judge_c07(out, root, &rootfen, &legal, depth, 0, &full, total);
         return;
     }
+    // Stops on a warm table: the game continues with the announced move, both sides shuffle
+    // back, and the search of the same position (table still holding its root entry, repetition
+    // filter now active) is stopped at each of its first polls.
+    if let (Some(b), Some(o_text)) = (full.result_text(), root.moves.last()) {
+        if let Some(again) = shuffle_back(root, &shadow, o_text, &b) {
+            if let (Ok(g2), Some(s2)) = (again.game(), again.shadow()) {
+                let legal2: Vec<String> = s2.legal_moves().iter().map(|m| m.uci()).collect();
+                let f4 = fen::render4(&s2);
+                for n in (0..=12u64).chain([20, 40, 80]) {
+                    let mut t2 = table.clone();
+                    let r2 = search(out, &g2, &mut t2, Some(depth + 1), n, 3_000_000, false);
+                    out.add("stopped_searches", 1);
+                    out.add("stops_on_a_warm_table_after_shuffling_back", 1);
+                    judge_c07_warm(out, &again, &f4, &legal2, depth + 1, n, &r2, 0, Some(root));
+                }
+            }
+        }
+    }
     let (points, exhaustive) = stop_points(total, cap, rng);
     if exhaustive {
         out.add("roots_with_every_stop_point", 1);
@@ -474,7 +492,12 @@ fn c07_root(out: &mut Out, root: &Root, depth: u8, cap: u64, rng: &mut Rng) {
 }
 
 fn judge_c07(out: &mut Out, root: &Root, rootfen: &str, legal: &[String], depth: u8, n: u64, r: &Sr, total: u64) {
-    let case = json!({"kind":"stop","root":root.json(),"depth":depth,"stop_at":n,"polls_of_undisturbed_search":total});
+    judge_c07_warm(out, root, rootfen, legal, depth, n, r, total, None)
+}
+
+/// `warm`: the root that was searched to `depth - 1` on the same table beforehand, if any.
+fn judge_c07_warm(out: &mut Out, root: &Root, rootfen: &str, legal: &[String], depth: u8, n: u64, r: &Sr, total: u64, warm: Option<&Root>) {
+    let case = json!({"kind":"stop","root":root.json(),"depth":depth,"stop_at":n,"polls_of_undisturbed_search":total,"warm_root":warm.map(|w| w.json())});
     if let Some(p) = &r.panicked {
         out.viol("C07", &format!("C07|panic|{rootfen}|{depth}|{n}"), &format!("search stopped at poll {n} panicked: {p}"), case);
         return;
@@ -562,6 +585,7 @@ pub fn run_c07(tier: &str, seed: u64) -> (Check, Agg) {
     chk.need("roots with every stop point tried", agg.c("roots_with_every_stop_point"), 10);
     chk.need("follow-up searches on the table an interrupted search left behind", agg.c("follow_up_searches_after_a_stop"), 2000);
     chk.need("follow-up searches of the node at which the stop landed", agg.c("follow_up_searches_at_the_stop_node"), 5000);
+    chk.need("stops on a warm table after the game shuffled back", agg.c("stops_on_a_warm_table_after_shuffling_back"), 200);
     (chk, agg)
 }
 
@@ -574,6 +598,12 @@ pub fn replay_c07(case: &Value, out: &mut Out) {
     let Ok(g) = root.game() else { return };
     let legal: Vec<String> = shadow.legal_moves().iter().map(|m| m.uci()).collect();
     let mut table = new_table();
+    if let Some(w) = Root::from_json(&case["warm_root"]) {
+        if let Ok(wg) = w.game() {
+            let r0 = search(out, &wg, &mut table, Some(depth.saturating_sub(1).max(1)), 0, 5_000_000, false);
+            println!("warm-up: {} searched to depth {} on the same table -> {:?}", w.json(), depth.saturating_sub(1).max(1), r0.result_text());
+        }
+    }
     let r = search(out, &g, &mut table, Some(depth), n, 0, false);
     if let Some(sf) = case["stop_node"].as_str() {
         if let (Ok(xs), Ok(xg)) = (fen::parse_strict(sf), eng::load(sf)) {
@@ -1019,17 +1049,17 @@ pub fn worker_c09(shard: usize, _nshards: usize, seed: u64, tier: &str, out: &mu
     install_panic_hook();
     let corpus = gen::corpus();
     let (ncases, budget) = match tier {
-        "thorough" => (9000, 5_000_000u64),
-        _ => (420, 600_000u64),
+        "thorough" => (20000, 5_000_000u64),
+        _ => (1300, 1_000_000u64),
     };
     let mut rng = Rng::new(seed, 0x9000 + shard as u64);
     let mut seen = HashSet::new();
     for i in 0..ncases {
-        let root = random_root(&corpus, &mut rng, match i % 4 { 0 => 6, 1 => 10, 2 => 16, _ => 32 });
+        let root = random_root(&corpus, &mut rng, match i % 6 { 0 => 6, 1 => 10, 2 | 3 => 16, _ => 32 });
         let depth = match rng.below(10) {
-            0..=1 => 1,
-            2..=4 => 2,
-            5..=7 => 3,
+            0 => 1,
+            1..=2 => 2,
+            3..=6 => 3,
             _ => 4,
         };
         let prefill = rng.chance(1, 2);
